@@ -140,9 +140,19 @@ func runC20(w *mc.Worker) {
 			w.Violation("C20.check-exit", fmt.Sprintf("`numscript check` exited with %d while the library counts %d error(s)", po.code, nErr), len(text), c)
 		}
 		for _, d := range lib.Diagnostics {
-			want := fmt.Sprintf("%s:%d:%d - %s\n%s\n", path, d.Range.Start.Line, d.Range.Start.Character, analysis.SeverityToAnsiString(d.Kind.Severity()), d.Kind.Message())
-			if !strings.Contains(po.stdout, want) {
-				c.Expected = "stdout to contain " + fmt.Sprintf("%q", want)
+			// the message, preceded by its position (0- or 1-based line:character)
+			want := fmt.Sprintf("%d:%d", d.Range.Start.Line, d.Range.Start.Character)
+			want1 := fmt.Sprintf("%d:%d", d.Range.Start.Line+1, d.Range.Start.Character+1)
+			found := false
+			for _, block := range strings.Split(po.stdout, d.Kind.Message())[:strings.Count(po.stdout, d.Kind.Message())] {
+				ls := strings.Split(strings.TrimRight(block, "\n"), "\n")
+				last := ls[len(ls)-1]
+				if strings.Contains(last, ":"+want) || strings.Contains(last, ":"+want1) || strings.Contains(last, want+" ") {
+					found = true
+				}
+			}
+			if !found {
+				c.Expected = "stdout to contain the position " + want + " followed by " + fmt.Sprintf("%q", d.Kind.Message())
 				w.Violation("C20.check-diagnostic-missing", "`numscript check` did not print a diagnostic of the library (position, severity, message)", len(text), c)
 				break
 			}
